@@ -377,8 +377,9 @@ def tlc_strict_transport(mc_cfg, trace_path, wd, timeout=600):
     m = re.search(r"Ids = (\{[^}]*\})", text)
     cfgf = os.path.join(d, "stricttr-" + os.path.basename(trace_path) + ".cfg")
     with open(cfgf, "w") as f:
-        f.write("SPECIFICATION SSpec\nCONSTANTS\n  Ids = %s\n  MaxSteps = 1000000\n  MaxDisc = 1000000\n  Export = FALSE\n  ExportOneIn = 1\n"
-                "INVARIANT SDone\nCHECK_DEADLOCK FALSE\n" % (m.group(1) if m else "{1, 2}"))
+        extra = "".join("  %s\n" % x.strip() for x in text.splitlines() if x.strip().startswith(("StepDt", "TimeoutS ", "TimeoutS=", "TimeoutSteps")))
+        f.write("SPECIFICATION SSpec\nCONSTANTS\n  Ids = %s\n  MaxSteps = 1000000\n  MaxDisc = 1000000\n  Export = FALSE\n  ExportOneIn = 1\n%s"
+                "INVARIANT SDone\nCHECK_DEADLOCK FALSE\n" % (m.group(1) if m else "{1, 2}", extra))
     meta = os.path.join(d, "metatr-" + os.path.basename(trace_path))
     out = os.path.join(d, "stricttr-" + os.path.basename(trace_path) + ".out")
     cmd = ["timeout", str(timeout), "tlc", "-workers", "1", "-metadir", meta, "-cleanup", "-noGenerateSpecTE", "-config", cfgf, "TraceTransportStrict.tla"]
